@@ -313,4 +313,217 @@ theorem resolveAll_blocks (rs : List Res) : ∀ (file pre post : List Nat),
         ih file pre post hfile' hrest]
       rfl
 
+theorem entriesFrom_ids (rs : List Res) : ∀ start, (entriesFrom start rs).map (·.1) = rs.map (·.id) := by
+  induction rs with
+  | nil => intro _; rfl
+  | cons r rs ih => intro start; by_cases hb : r.isBytes <;> simp [entriesFrom, hb, ih]
+
+theorem entriesFrom_length (rs : List Res) : ∀ start, (entriesFrom start rs).length = rs.length := by
+  induction rs with
+  | nil => intro _; rfl
+  | cons r rs ih => intro start; by_cases hb : r.isBytes <;> simp [entriesFrom, hb, ih]
+
+theorem any_id_false (l : List Res) (x : List Nat) (h : x ∉ l.map (·.id)) :
+    l.any (fun r => r.id == x) = false := by
+  rw [List.any_eq_false]
+  intro r hr heq
+  exact h (List.mem_map.mpr ⟨r, hr, by simpa using heq⟩)
+
+theorem entriesFrom_wf (rs : List Res) : ∀ start, rs.all resWF = true →
+    start + (resBlocks rs).flatten.length < 256 ^ 4 → (entriesFrom start rs).all entryWF = true := by
+  induction rs with
+  | nil => intro _ _ _; rfl
+  | cons r rs ih =>
+    intro start hwf hb
+    simp only [List.all_cons, Bool.and_eq_true] at hwf
+    obtain ⟨hr, hrest⟩ := hwf
+    have hr' := hr
+    simp only [resWF, Bool.and_eq_true, beq_iff_eq, decide_eq_true_eq] at hr'
+    obtain ⟨⟨⟨⟨⟨⟨hid, hfl⟩, hiv⟩, hdl⟩, _⟩, _⟩, _⟩ := hr'
+    have F := flag_facts r.flags hfl
+    by_cases hbt : r.isBytes
+    · simp only [resBlocks, hbt, if_true, List.flatten_cons, List.length_append, length_le'] at hb
+      simp only [entriesFrom, hbt, if_true, List.all_cons, Bool.and_eq_true]
+      refine ⟨?_, ih _ hrest (by omega)⟩
+      simp [entryWF, hid, F.2.2.1]; omega
+    · simp only [resBlocks, hbt, Bool.false_eq_true, if_false] at hb
+      simp only [entriesFrom, hbt, Bool.false_eq_true, if_false, List.all_cons, Bool.and_eq_true]
+      refine ⟨?_, ih _ hrest hb⟩
+      simp [entryWF, hid, F.2.2.2]; omega
+
+theorem entries_bytes_length (es : List Entry) (h : es.all entryWF = true) :
+    ((es.map encEntry).flatten).length = 8 * es.length := by
+  induction es with
+  | nil => rfl
+  | cons e es ih =>
+    simp only [List.all_cons, Bool.and_eq_true, entryWF, beq_iff_eq, decide_eq_true_eq] at h
+    simp only [List.map_cons, List.flatten_cons, List.length_append, ih h.2, encEntry, h.1.1.1,
+      List.length_cons, List.length_nil, length_le']
+    omega
+
+/-- every entry of the resource table, in file order. -/
+def allEntries (v : Vtf) (minor sheetVer lowLen : Nat) : List Entry :=
+  entriesFrom (headerSize v minor) v.res ++
+    ([(idLow, 0, lowOff v minor sheetVer), (idHigh, 0, lowOff v minor sheetVer + lowLen)] ++
+      (if hasSheetRes v then [(idSheet, 0, sheetOff v minor)] else []))
+
+theorem allEntries_length (v : Vtf) (minor sheetVer lowLen : Nat) :
+    (allEntries v minor sheetVer lowLen).length = resCount v := by
+  simp only [allEntries, List.length_append, entriesFrom_length, resCount]
+  split <;> simp
+
+theorem resTable_eq (v : Vtf) (minor sheetVer lowLen : Nat) (hm : minor ≥ 3) :
+    resTable v minor sheetVer lowLen = zeros 3 ++ (le 4 (resCount v) ++ (zeros 8 ++
+      ((allEntries v minor sheetVer lowLen).map encEntry).flatten)) := by
+  simp only [resTable, hm, if_true, allEntries, resEntries_eq, List.map_append, List.flatten_append]
+  split <;> simp [encEntry, List.append_assoc]
+
+/-- well-formedness of the resource / sheet part (decidable). -/
+def resPartWF (v : Vtf) (minor sheetVer lowLen : Nat) : Bool :=
+  v.res.all resWF && decide ((v.res.map (·.id)).Nodup) && sheetWF v.sheet && decide (sheetVer ≤ 1) &&
+    decide (lowOff v minor sheetVer + lowLen < 256 ^ 4) &&
+    decide ((sheetData v.sheet sheetVer).length < 256 ^ 4)
+
+theorem normRes_id (r : Res) : (normRes r).id = r.id := by
+  unfold normRes; split <;> rfl
+
+theorem readResources_ok (v : Vtf) (minor sheetVer lowLen : Nat) (H tail file : List Nat)
+    (hm : minor ≥ 3) (hH : H.length = preLen minor)
+    (hfile : file = H ++ (resTable v minor sheetVer lowLen ++
+      ((resBlocks v.res).flatten ++ (sheetBlock v minor sheetVer ++ tail))))
+    (hwf : resPartWF v minor sheetVer lowLen = true) :
+    readResources file (resTable v minor sheetVer lowLen ++
+        ((resBlocks v.res).flatten ++ (sheetBlock v minor sheetVer ++ tail)))
+      = .ok (v.res.map normRes, v.sheet.map (normSeq sheetVer), some (lowOff v minor sheetVer),
+             some (lowOff v minor sheetVer + lowLen)) := by
+  simp only [resPartWF, Bool.and_eq_true, decide_eq_true_eq] at hwf
+  obtain ⟨⟨⟨⟨⟨hres, hnd⟩, hsheet⟩, hsv⟩, hoff⟩, hslen⟩ := hwf
+  -- offsets
+  have hLow : lowOff v minor sheetVer
+      = headerSize v minor + ((resBlocks v.res).flatten.length + (sheetBlock v minor sheetVer).length) := by
+    simp [lowOff, dataBlocks, hm]
+  have hSheetOff : sheetOff v minor = headerSize v minor + (resBlocks v.res).flatten.length := by
+    simp [sheetOff, hm]
+  have hHS : headerSize v minor = preLen minor + 15 + 8 * resCount v := by simp [headerSize, hm]
+  -- the table
+  have hE1wf : (entriesFrom (headerSize v minor) v.res).all entryWF = true :=
+    entriesFrom_wf v.res _ hres (by omega)
+  have hAllwf : (allEntries v minor sheetVer lowLen).all entryWF = true := by
+    simp only [allEntries, List.all_append, Bool.and_eq_true]
+    refine ⟨hE1wf, ?_, ?_⟩
+    · simp [entryWF, idLow, idHigh]; omega
+    · split
+      · simp [entryWF, idSheet]; omega
+      · rfl
+  have hTlen : (resTable v minor sheetVer lowLen).length = 15 + 8 * resCount v := by
+    rw [resTable_eq v minor sheetVer lowLen hm]
+    simp [entries_bytes_length _ hAllwf, allEntries_length]; omega
+  have hcount : resCount v < 256 ^ 4 := by omega
+  rw [resTable_eq v minor sheetVer lowLen hm]
+  have hsplit : splitW [3, 4, 8]
+      (zeros 3 ++ (le 4 (resCount v) ++ (zeros 8 ++ ((allEntries v minor sheetVer lowLen).map encEntry).flatten)) ++
+        ((resBlocks v.res).flatten ++ (sheetBlock v minor sheetVer ++ tail)))
+      = some ([zeros 3, le 4 (resCount v), zeros 8],
+          ((allEntries v minor sheetVer lowLen).map encEntry).flatten ++
+            ((resBlocks v.res).flatten ++ (sheetBlock v minor sheetVer ++ tail))) := by
+    apply splitW_of
+    · simp
+    · simp [List.append_assoc]
+  simp only [readResources, hsplit, leDecode_le' 4 _ hcount]
+  rw [← allEntries_length v minor sheetVer lowLen, readEntries_enc _ hAllwf]
+  simp only []
+  -- the loop over the entries
+  have hids : ∀ e ∈ entriesFrom (headerSize v minor) v.res, e.1 ≠ idLow ∧ e.1 ≠ idHigh := by
+    intro e he
+    have : e.1 ∈ v.res.map (·.id) := by
+      rw [← entriesFrom_ids v.res (headerSize v minor)]; exact List.mem_map.mpr ⟨e, he, rfl⟩
+    obtain ⟨r, hr, hre⟩ := List.mem_map.mp this
+    have hw := List.all_eq_true.mp hres r hr
+    simp only [resWF, Bool.and_eq_true, bne_iff_ne, ne_eq] at hw
+    rw [← hre]; exact ⟨hw.1.1.2, hw.1.2⟩
+  have hstoredIds : ((entriesFrom (headerSize v minor) v.res).map stored).map (·.id) = v.res.map (·.id) := by
+    rw [← entriesFrom_ids v.res (headerSize v minor), List.map_map]; rfl
+  have hnotin : ∀ x, (∀ r ∈ v.res, r.id ≠ x) →
+      ((entriesFrom (headerSize v minor) v.res).map stored).any (fun r => r.id == x) = false := by
+    intro x hx
+    apply any_id_false
+    rw [hstoredIds]
+    intro hmem
+    obtain ⟨r, hr, hre⟩ := List.mem_map.mp hmem
+    exact hx r hr hre
+  have hresIds : ∀ r ∈ v.res, r.id ≠ idLow ∧ r.id ≠ idHigh ∧ r.id ≠ idSheet := by
+    intro r hr
+    have hw := List.all_eq_true.mp hres r hr
+    simp only [resWF, Bool.and_eq_true, bne_iff_ne, ne_eq] at hw
+    exact ⟨hw.1.1.2, hw.1.2, hw.2⟩
+  have hplain := procEntries_plain (entriesFrom (headerSize v minor) v.res) [] none none
+    ([(idLow, 0, lowOff v minor sheetVer), (idHigh, 0, lowOff v minor sheetVer + lowLen)] ++
+      (if hasSheetRes v then [(idSheet, 0, sheetOff v minor)] else []))
+    hids (by simpa [entriesFrom_ids] using hnd)
+  simp only [List.nil_append] at hplain
+  -- data blocks of the plain resources
+  have hblocks : resolveAll file ((entriesFrom (headerSize v minor) v.res).map stored)
+      = .ok (v.res.map normRes) := by
+    have := resolveAll_blocks v.res file (H ++ resTable v minor sheetVer lowLen)
+      (sheetBlock v minor sheetVer ++ tail) (by rw [hfile]; simp [List.append_assoc]) hres
+    simpa [hH, hTlen, hHS, Nat.add_assoc] using this
+  have hnoSheet : ∀ r ∈ v.res.map normRes, ¬ (r.id == idSheet) = true := by
+    intro r hr
+    obtain ⟨r0, hr0, rfl⟩ := List.mem_map.mp hr
+    simpa [normRes_id] using (hresIds r0 hr0).2.2
+  unfold allEntries
+  rw [hplain]
+  by_cases hs : hasSheetRes v
+  · -- with a particle sheet
+    have hSB : sheetBlock v minor sheetVer
+        = le 4 (sheetData v.sheet sheetVer).length ++ sheetData v.sheet sheetVer := by
+      simp [sheetBlock, hm, hs]
+    simp only [hs, if_true, List.cons_append, List.nil_append, procEntries,
+      hnotin idLow (fun r hr => (hresIds r hr).1), hnotin idHigh (fun r hr => (hresIds r hr).2.1),
+      Bool.false_eq_true, if_false, beq_self_eq_true, if_true,
+      show (idHigh == idLow) = false by decide, show (idSheet == idLow) = false by decide,
+      show (idSheet == idHigh) = false by decide, hnotin idSheet (fun r hr => (hresIds r hr).2.2),
+      pure, Except.pure]
+    have hsheetRes : resolveAll file [⟨idSheet, 0, false, sheetOff v minor, []⟩]
+        = .ok [⟨idSheet, 0, true, 0, sheetData v.sheet sheetVer⟩] := by
+      have hf2 : file = (H ++ resTable v minor sheetVer lowLen ++ (resBlocks v.res).flatten) ++
+          (le 4 (sheetData v.sheet sheetVer).length ++ (sheetData v.sheet sheetVer ++ tail)) := by
+        rw [hfile, hSB]; simp [List.append_assoc]
+      have hlen2 : (H ++ resTable v minor sheetVer lowLen ++ (resBlocks v.res).flatten).length
+          = sheetOff v minor := by
+        simp [hH, hTlen, hSheetOff, hHS]; omega
+      have hu : u32At file (sheetOff v minor) = .ok (sheetData v.sheet sheetVer).length := by
+        rw [hf2, ← hlen2]; exact u32At_mid _ _ _ hslen
+      have hsl : slice file (sheetOff v minor + 4) (sheetData v.sheet sheetVer).length
+          = sheetData v.sheet sheetVer := by
+        have hf3 : file = (H ++ resTable v minor sheetVer lowLen ++ (resBlocks v.res).flatten ++
+            le 4 (sheetData v.sheet sheetVer).length) ++ (sheetData v.sheet sheetVer ++ tail) := by
+          rw [hf2]; simp [List.append_assoc]
+        have hl3 : (H ++ resTable v minor sheetVer lowLen ++ (resBlocks v.res).flatten ++
+            le 4 (sheetData v.sheet sheetVer).length).length = sheetOff v minor + 4 := by
+          rw [List.length_append, hlen2]; simp
+        rw [hf3, ← hl3]
+        exact slice_mid' _ _ _ _ rfl
+      simp [resolveAll, resolveRes, hu, hsl, pure, Except.pure]
+    rw [resolveAll_append file _ _ _ _ hblocks hsheetRes]
+    simp only []
+    have hfind : (v.res.map normRes ++ [(⟨idSheet, 0, true, 0, sheetData v.sheet sheetVer⟩ : Res)]).find?
+        (fun r => r.id == idSheet) = some ⟨idSheet, 0, true, 0, sheetData v.sheet sheetVer⟩ := by
+      rw [List.find?_append, List.find?_eq_none.mpr hnoSheet]; simp
+    have hfilter : (v.res.map normRes ++ [(⟨idSheet, 0, true, 0, sheetData v.sheet sheetVer⟩ : Res)]).filter
+        (fun r => r.id != idSheet) = v.res.map normRes := by
+      rw [List.filter_append, List.filter_eq_self.mpr (by
+        intro r hr; simpa [bne_iff_ne] using hnoSheet r hr)]
+      simp
+    simp only [hfind, hfilter, Bool.not_true, Bool.false_eq_true, if_false,
+      parseSheet_sheetData v.sheet sheetVer hsv hsheet]
+  · -- without
+    have hempty : v.sheet = [] := by
+      simpa [hasSheetRes] using hs
+    simp only [hs, Bool.false_eq_true, if_false, List.append_nil, procEntries,
+      hnotin idLow (fun r hr => (hresIds r hr).1), hnotin idHigh (fun r hr => (hresIds r hr).2.1),
+      beq_self_eq_true, if_true, show (idHigh == idLow) = false by decide, pure, Except.pure]
+    rw [hblocks]
+    simp only [List.find?_eq_none.mpr hnoSheet, hempty, List.map_nil]
+
 end C15
